@@ -151,7 +151,7 @@ def wake_before_park(rec, F):
         clos = sem.closure_paths_in(h)
         for v, dst in t["targets"]:
             var = sv[1].get(v)
-            reg = arm_region(h, b, dst) | {dst}
+            reg = arm_region(h, b, dst) | {dst} | set(x for x in h.pdom.get(dst, set()) if x >= 0)
             parks = [bi for bi, tt in h.calls() if bi in reg and tt["f"] in PARKS]
             if not parks:
                 continue
